@@ -194,6 +194,87 @@ def parse_projection(path):
     return unimpl, ctor
 
 
+MUTATING_METHODS = ("noalias", "resize", "conservativeResize", "setZero", "setOnes", "setConstant", "setRandom", "fill",
+                    "swap", "setIdentity", "resizeLike", "reset", "push_back", "clear", "assign", "emplace_back")
+TYPE_START = r"(?:const\s+)?(?:[A-Za-z_][\w:]*)(?:\s*<[^;=()]*>)?(?:\s*[&*])?"
+
+
+def parse_mpi(path):
+    """wave 4: is MatrixProjectionImplementation::project a FUNCTION of its argument?  From the struct in projection.hpp:
+    the data members, the `mutable` / `static` / `thread_local` declarations of the struct and of the whole file, and
+    for the body of project(): its parameter text, the number of return statements, the identifiers it declares
+    locally, and the NON-LOCAL identifiers it writes (left-hand side of an assignment / compound assignment /
+    increment, or receiver of a mutating Eigen / container member call such as noalias(), resize(), setZero())."""
+    src = strip_comments(open(path).read())
+    m = re.search(r"struct\s+MatrixProjectionImplementation\b[^{;]*\{", src)
+    if not m:
+        raise TranslateError("struct MatrixProjectionImplementation not found")
+    end = match_close(src, m.end() - 1, "{", "}")
+    body = src[m.end():end]
+    pm = re.search(r"\bDenseVector\s+project\s*\(([^)]*)\)\s*(const)?\s*(?:override)?\s*\{", body)
+    if not pm:
+        raise TranslateError("MatrixProjectionImplementation::project not found")
+    pend = match_close(body, pm.end() - 1, "{", "}")
+    fbody = body[pm.end():pend]
+    param = norm(pm.group(1))
+    pnames = re.findall(r"(\w+)\s*(?:,|$)", pm.group(1).strip())
+    # the struct with every function body blanked: what remains at depth 0 are the member declarations
+    flat, depth = "", 0
+    for ch in body:
+        if ch == "{":
+            depth += 1
+            continue
+        if ch == "}":
+            depth -= 1
+            flat += ";"
+            continue
+        if depth == 0:
+            flat += ch
+    members, mutables = [], 0
+    for stmt in flat.split(";"):
+        st = stmt.strip()
+        if not st or "(" in st or st.startswith(("typedef", "using", "friend", "public", "private", "protected")):
+            continue
+        mm = re.fullmatch(r"((?:mutable\s+|static\s+|thread_local\s+|const\s+)*)" + TYPE_START + r"\s+(\w+)(?:\s*=.*)?", st, re.S)
+        if mm:
+            members.append(mm.group(2))
+            if re.search(r"\b(mutable|static|thread_local)\b", mm.group(1)):
+                mutables += 1
+    # statements of project()
+    stmts = [x.strip() for x in re.split(r"[;{}]", fbody) if x.strip()]
+    locals_, writes, statics = list(pnames), [], 0
+    nreturns = len(re.findall(r"\breturn\b", fbody))
+    statics += len(re.findall(r"\b(?:static|thread_local)\b", fbody))
+    for st in stmts:
+        if st.startswith("return"):
+            continue
+        dm_ = re.match(r"(?:static\s+|thread_local\s+)*" + TYPE_START + r"\s+(\w+)\s*(?:=|\(|$|\[)", st)
+        if dm_ and not re.match(r"(\w+)\s*(?:=|\+=|-=|\*=|/=)", st):
+            locals_.append(dm_.group(1))
+            continue
+        wm = re.match(r"(?:this\s*->\s*)?(\w+)(?:\s*\[[^\]]*\]|\s*\([^)]*\))?(?:\.\w+\(\))*\s*(?:=(?!=)|\+=|-=|\*=|/=|<<=?|\+\+|--)", st)
+        if wm:
+            writes.append(wm.group(1))
+            continue
+        wm = re.match(r"(?:\+\+|--)\s*(\w+)", st)
+        if wm:
+            writes.append(wm.group(1))
+            continue
+        wm = re.match(r"(?:this\s*->\s*)?(\w+)\s*(?:\.|->)\s*(\w+)\s*\(", st)
+        if wm and wm.group(2) in MUTATING_METHODS:
+            writes.append(wm.group(1))
+            continue
+    nonlocal_writes = sorted({w for w in writes if w not in locals_})
+    # file scope: static / thread_local OBJECTS (not functions) anywhere in projection.hpp
+    file_statics = 0
+    for mm in re.finditer(r"\b(?:static|thread_local)\b([^;{(]*)([;{(=])", src):
+        if mm.group(2) in (";", "="):
+            file_statics += 1
+    return {"members": members, "mutable_members": mutables, "param": param, "nreturns": nreturns,
+            "nonlocal_writes": nonlocal_writes, "static_decls": statics, "file_statics": file_statics,
+            "is_const_method": bool(pm.group(2))}
+
+
 def parse(repo):
     files = sorted(glob.glob(os.path.join(repo, METHODS_DIR, "*.hpp")))
     entries = []
@@ -206,7 +287,8 @@ def parse(repo):
     names, shape_ok = parse_dispatch(os.path.join(repo, DISPATCH))
     unimpl, ctor = parse_projection(os.path.join(repo, PROJECTION))
     return {"entries": entries, "dispatch": names, "dispatch_shape_ok": shape_ok,
-            "unimplemented_returns": unimpl, "default_ctor_init": ctor}
+            "unimplemented_returns": unimpl, "default_ctor_init": ctor,
+            "mpi": parse_mpi(os.path.join(repo, PROJECTION))}
 
 
 def cstr(s):
@@ -241,6 +323,14 @@ def emit(tab):
     L.append("Definition dispatch_shape_ok : bool := %s." % ("true" if tab["dispatch_shape_ok"] else "false"))
     L.append("Definition unimplemented_returns : string := %s." % cstr(tab["unimplemented_returns"]))
     L.append("Definition default_ctor_init : string := %s." % cstr(tab["default_ctor_init"]))
+    mpi = tab["mpi"]
+    L.append("")
+    L.append("(* MatrixProjectionImplementation::project — is it a function of its argument? (wave 4) *)")
+    L.append("Definition mpi_purity : mpi_purity_table :=")
+    L.append("  {| mp_members := %s;\n     mp_param := %s;\n     mp_nreturns := %d;\n     mp_nonlocal_writes := %s;\n"
+             "     mp_static_decls := %d;\n     mp_mutable_members := %d;\n     mp_file_statics := %d |}." % (
+                 clist(mpi["members"]), cstr(mpi["param"]), mpi["nreturns"], clist(mpi["nonlocal_writes"]),
+                 mpi["static_decls"], mpi["mutable_members"], mpi["file_statics"]))
     return "\n".join(L) + "\n"
 
 
@@ -275,6 +365,20 @@ SELF_TEST_MUTATIONS = [
     ("include/tapkee/projection.hpp", "return tapkee::ProjectingFunction();",
      "return tapkee::ProjectingFunction(new MatrixProjectionImplementation(DenseMatrix(), DenseVector()));"),
     ("include/tapkee/methods.hpp", "tapkee_method_handle(RandomProjection);", ""),
+    # wave 4: hidden state in MatrixProjectionImplementation::project (member scratch buffer; static scratch buffer;
+    # noalias() into a member)
+    ("include/tapkee/projection.hpp", "return proj_mat.transpose() * (vec - mean_vec);",
+     "mean_vec = vec - mean_vec; return proj_mat.transpose() * mean_vec;"),
+    ("include/tapkee/projection.hpp", "return proj_mat.transpose() * (vec - mean_vec);",
+     "static DenseVector scratch; scratch = vec - mean_vec; return proj_mat.transpose() * scratch;"),
+    ("include/tapkee/projection.hpp", "return proj_mat.transpose() * (vec - mean_vec);",
+     "mean_vec.noalias() = vec - mean_vec; return proj_mat.transpose() * mean_vec;"),
+]
+
+# rewrites that must leave the table UNCHANGED (a local temporary is not state)
+SELF_TEST_HARMLESS = [
+    ("include/tapkee/projection.hpp", "return proj_mat.transpose() * (vec - mean_vec);",
+     "DenseVector centered = vec - mean_vec; DenseVector result = proj_mat.transpose() * centered; return result;"),
 ]
 
 
@@ -302,6 +406,28 @@ def self_test(repo):
             print("self-test: %-44s %-60s -> %s" % (os.path.basename(rel), old[:60],
                                                    "table changed" if changed else "NOT DETECTED"))
             ok = ok and changed
+        finally:
+            shutil.rmtree(d, ignore_errors=True)
+    for rel, old, new in SELF_TEST_HARMLESS:
+        d = tempfile.mkdtemp(prefix="t_proj_selftest_")
+        try:
+            shutil.copytree(os.path.join(repo, "include/tapkee/methods"), os.path.join(d, "include/tapkee/methods"))
+            for r in (DISPATCH, PROJECTION):
+                shutil.copy(os.path.join(repo, r), os.path.join(d, r))
+            p = os.path.join(d, rel)
+            s = open(p).read()
+            if old not in s:
+                print("self-test: pattern not present (source drifted?): %r" % old[:70])
+                ok = False
+                continue
+            open(p, "w").write(s.replace(old, new, 1))
+            try:
+                same = emit(parse(d)) == base
+            except TranslateError:
+                same = False
+            print("self-test (harmless): %-33s %-60s -> %s" % (os.path.basename(rel), old[:60],
+                                                              "table unchanged" if same else "table CHANGED"))
+            ok = ok and same
         finally:
             shutil.rmtree(d, ignore_errors=True)
     return ok
